@@ -142,6 +142,8 @@ enum OpResult {
     Byte(Option<u8>),
     Bool(bool),
     Io(bool), // is_err
+    /// check_io_error returned an error that is not the source's own error object (rendering)
+    WrongError(String),
     Panicked(String, String),
 }
 
@@ -211,7 +213,13 @@ fn apply(w: &mut World, op: &ROp) -> OpResult {
             reader.set_chunk_size(*c);
             OpResult::Unit
         }
-        ROp::CheckIoError => OpResult::Io(reader.check_io_error().is_err()),
+        ROp::CheckIoError => match reader.check_io_error() {
+            Ok(()) => OpResult::Io(false),
+            Err(e) => {
+                let r = mc_core::source::render_io_error(&e);
+                if r.contains("/scripted-payload/") { OpResult::Io(true) } else { OpResult::WrongError(r) }
+            }
+        },
     });
     match r {
         Ok(r) => r,
@@ -381,6 +389,10 @@ fn oracle(cfg: &Cfg, mode: Mode, data: &[u8], w: &mut World, op: &ROp, before: &
             if s[..] != stream[cursor - n..cursor] {
                 p.push(("return", format!("advance_with_buf({n}) returned {s:?}, the bytes passed over are {:?}", &stream[cursor - n..cursor])));
             }
+        }
+        (ROp::CheckIoError, OpResult::WrongError(r)) => {
+            p.push(("flags", format!("check_io_error() returned an error that is not the source's own error object: {r}")));
+            w.model.err_taken = true;
         }
         (ROp::CheckIoError, OpResult::Io(is_err)) => {
             let expected = src.err_returned > 0 && !w.model.err_taken;
@@ -559,7 +571,7 @@ fn replay<'d>(cfg: &Cfg, mode: Mode, data: &'d [u8], hist: &[Step], extra_forced
         if w.model.resynced && safety(&w).is_none() {
             w.model.cursor = w.reader.position();
         }
-        if let (ROp::CheckIoError, OpResult::Io(true)) = (&step.op, &res) {
+        if let (ROp::CheckIoError, OpResult::Io(true) | OpResult::WrongError(_)) = (&step.op, &res) {
             w.model.err_taken = true;
         }
         let _ = (before, mode);
